@@ -31,12 +31,12 @@ func init() {
 			"a cached key is returned without a load only when getFresh said fresh, isReloadRequired short-circuits only for already-revoked keys and consults loadedAt, the interval and the clock; " +
 			"(reload-refreshes) the retain-cached-entry path of load copies the reloaded Revoked flag, resets loadedAt from time.Now() and writes the entry back; " +
 			"(merge-identity) that path is guarded by equality of the cached and reloaded key's Created; (invalid-latest-replaced) = C04.latest-revalidated; " +
-			"(old-records-readable) no validity gate is reachable on the decrypt path. Elapsed-time bounds are not decided.",
+			"(old-records-readable) no validity gate is reachable on the decrypt path, and the cache never drops its own reference to a key that stays cached (C08.refcount-protocol), so superseded keys stay usable for reads. Elapsed-time bounds are not decided.",
 		NotDecided:  []string{"elapsed-time bounds ('within N intervals')", "behaviour when no key with a later creation stamp can be created", "cross-process timing"},
 		Assumptions: []string{"the loader passed to the cache re-reads the metastore (checked by C20.external-only-via-cache / C01 provenance rules)"},
 		Tech:        "static analysis: guarded-by-condition and must-pass-through on SSA over key_cache.go/envelope.go",
 		NeedU1:      true,
-		Rules:       []func(*Ctx){ruleC05StaleMeansReload, ruleC05ReloadRefreshes, ruleC05MergeIdentity, ruleC04LatestRevalidated, ruleC01NoValidityGateOnRead},
+		Rules:       []func(*Ctx){ruleC05StaleMeansReload, ruleC05ReloadRefreshes, ruleC05MergeIdentity, ruleC04LatestRevalidated, ruleC01NoValidityGateOnRead, ruleC08RefcountProtocol},
 	})
 }
 
@@ -361,9 +361,6 @@ func ruleC05StaleMeansReload(c *Ctx) {
 					if j == ssa.Instruction(r) {
 						return pathFound
 					}
-					if staticCallee(j) == ld || dynamicCallOfParam(j, "loader") {
-						return pathStop
-					}
 					if staticCallee(j) == gf && j != i {
 						return pathStop // a later lookup supersedes this one
 					}
@@ -372,6 +369,14 @@ func ruleC05StaleMeansReload(c *Ctx) {
 					for _, fct := range edgeFacts(from, to) {
 						if ex, ok := strip(fct.V).(*ssa.Extract); ok && ex.Index == 1 && ex.Tuple == ssa.Value(i.(*ssa.Call)) && fct.True {
 							return false // fresh edge: fine
+						}
+						// the success edge of a (re)load: fine. A failed load does not count: the path goes on.
+						if x, isNil, ok := nilTest(fct); ok && isNil {
+							if ex, isEx := strip(x).(*ssa.Extract); isEx {
+								if lc, isCall := ex.Tuple.(*ssa.Call); isCall && (staticCallee(lc) == ld || dynamicCallOfParam(lc, "loader")) {
+									return false
+								}
+							}
 						}
 					}
 					return true
@@ -385,9 +390,9 @@ func ruleC05StaleMeansReload(c *Ctx) {
 			case nGF == 0:
 				c.undecided(construct, u.ipos(r), "no getFresh lookup in a method that returns cached keys")
 			case bad:
-				c.bad(construct, u.ipos(r), "a cached key can be returned although getFresh did not report it fresh and no (re)load happened on that path", u.tracePositions(trace)...)
+				c.bad(construct, u.ipos(r), "a cached key can be returned although getFresh did not report it fresh and no (re)load succeeded on that path (a stale or failed-to-refresh key keeps being used: revocation is not seen within the interval)", u.tracePositions(trace)...)
 			default:
-				c.ok(construct, u.ipos(r), "every path to this return takes getFresh's fresh edge or passes load()/loader()")
+				c.ok(construct, u.ipos(r), "every path to this return takes getFresh's fresh edge or the success edge of load()/loader()")
 			}
 		}
 	}
